@@ -48,6 +48,13 @@ def cases(tier):
         other = {'m': 2, 'cap': 2, 'seeded': False, 'values': ['3', '4'], 'sym_bits': False, 'name_idx': 1, 'label': 'member 1'}
         cfg = {'scenario': 'batch', 'n': 8, 'x': 2, 'members': [dict(mem), dict(other)] + [dict(mem, rng_replay_of=0) for _ in range(reps - 1)], 'actions': ['VerifyOnly', 'RecoverAndVerify', 'RecoverOnly']}
         out.append({'cfg': cfg, 'kind': 'honest', 'name': 'honest: the same triple listed %d times around another member' % reps})
+    # different members carrying ONE seed (a wallet's outputs) among others: result i is member i's own mask
+    for perm in itertools.permutations(range(3)):
+        mems = [{'m': 1, 'cap': 2, 'seeded': True, 'seed_name': 'wallet', 'values': 'sym', 'label': 'member 0'},
+                {'m': 1, 'cap': 2, 'seeded': True, 'seed_name': 'wallet', 'values': 'sym', 'label': 'member 1', 'promises': ['sym']},
+                {'m': 2, 'cap': 2, 'seeded': False, 'values': 'sym', 'label': 'member 2'}]
+        cfg = {'scenario': 'batch', 'n': 8, 'x': 2, 'members': mems, 'verify_order': list(perm), 'actions': ['VerifyOnly', 'RecoverAndVerify', 'RecoverOnly']}
+        out.append({'cfg': cfg, 'kind': 'honest', 'name': 'honest k=3, members 0 and 1 share one seed, order %s' % list(perm)})
     # (c) one invalid member at each position
     for k in (2, 3):
         for pos in range(k):
